@@ -19,6 +19,9 @@ def generate(rng, tier):
         s = Script(arch)
         for i in range(6):
             s.module_none("M%d" % i, 0x1000 * (i + 1), 0x1000 * (i + 1) + 0x100, 0x1000 * (i + 1), 0)
+            # another image that starts at the same address (a library reloaded at the address of an unloaded one whose
+            # removal was missed): adding it is a modification of the module set like any other
+            s.module_none("D%d" % i, 0x1000 * (i + 1), 0x1000 * (i + 1) + 0x80, 0x1000 * (i + 1), 0)
         unws = {}
         for _ in range(rng.range(40, 200)):
             c = rng.below(10)
@@ -31,6 +34,8 @@ def generate(rng, tier):
                     i = rng.below(6)
                     if i not in unws[u]:
                         s.add("add %s M%d" % (u, i), tag="add"); unws[u].add(i)
+                    elif rng.chance(1, 2):
+                        s.add("add %s D%d" % (u, i), tag="add-same-start")
                 elif c < 8:
                     if unws[u]:
                         i = rng.choice(sorted(unws[u])); s.add("remove %s %s" % (u, hx(0x1000 * (i + 1))), tag="remove-known"); unws[u].discard(i)
